@@ -9,12 +9,12 @@ import Ruint.Lemmas.GenCore
 
 Property theorems only. The functions are the executable models of `Model/MulKernels.lean`
 (`Ruint.Limb.*`, instantiated at the limb base `W = 2^64`) and `Model/ShiftKernels.lean`
-(`Ruint.Shift.*`) — the ones the correspondence driver `Drv/C15.lean` runs against the real
+(`Ruint.ShiftK.*`) — the ones the correspondence driver `Drv/C15.lean` runs against the real
 `ruint::algorithms::*`. Every theorem holds for **all** slice lengths (`0..∞`, independently per
 argument where the code allows it) and all limb contents (`AllLt` = every limb is a `u64`).
 -/
 namespace Ruint.C15
-open Ruint Ruint.Limb Ruint.Shift
+open Ruint Ruint.Limb Ruint.ShiftK
 
 /-! ## `addmul`, `addmul_n` -/
 
